@@ -7,6 +7,18 @@ TB = ("Trusted: Coq 8.16.1 kernel (vm_compute, no native_compute; no axioms: eve
       "sync.Pool/bufio; the translator tools/gotrans; extraction (ExtrOcamlBasic only) + ocaml/zmodel.ml; the Go harness and its "
       "blob-decoding co-process; for vectors the pure-Go stand-in engine fakefaiss. ")
 CLAIMED = {
+ "C04": ("Coq: footer + CRC-32 theorems (Footer.v), footer field order re-extracted from persistFooter/loadConfig and tied; correspondence: Persist bytes = WriteTo bytes, footer decoded and CRC recomputed by the Gallina CRC-32, opened dump = in-memory dump = extracted spec, incl. a >2 MiB segment",
+         "footer_roundtrip and crc_update_app hold for all byte images; tie_footer_order re-proves on every run that the Go writer and reader use the frozen field order; every generated segment (many per process, so pooled builder state is reused) is persisted, its footer decoded by the model and its CRC recomputed by an independent implementation, and the re-opened segment's complete query surface compared with the in-memory one and the spec.",
+         "mmap/open are OS behaviour; vectors under C14.", "6 C04"),
+ "C09": ("Coq: frozen v16 reader parse_v16 (Layout.v) + codec round-trip theorems + translator ties of every shared constant/packing/chunk-size rule; correspondence: files of the current writer decoded by the frozen extracted parser; frozen corpus (written by the pinned commit) re-read by the current reader",
+         "Two independent anchors make symmetric format changes visible: the frozen extracted parser decodes every file the current code writes (builds, merges, re-merges, synonyms, boundary cardinalities) and must obtain the content that went in; 21 files written by the pinned commit are re-opened by the current reader and must answer as recorded. Shared arithmetic (chunk size, single-hit packing, constants, footer order) is re-translated from Go and re-proved equal to the frozen definitions on every run.",
+         "vellum/roaring/snappy blob formats are decoded by those libraries, not by Coq code; parse(emit c) = c is proved per codec layer, not yet composed.", "6 C09"),
+ "C12": ("Coq: synonym-code and id-assignment theorems (Kernel.v, SynIds.v) + translator ties (encode/decodeSynonym); correspondence: thesaurus listings under all exclusion bitmaps vs extracted spec, in memory and re-opened, files through the extracted parser",
+         "pair32_roundtrip and syn_ids_roundtrip hold for all ids / visiting orders; extracted spec_thes decides each thesaurus' term list and (synonym, document) pairs for every exclusion bitmap over the defining documents, with thesauri interleaved in the batch and pairs defined by several documents.",
+         "W6 input domain; vellum/roaring64 abstract.", "6 C12"),
+ "C13": ("Coq: id re-assignment theorem (SynIds.v) + synonym-code ties; correspondence: merge chains over segments with synonym documents vs extracted spec_merge, incl. thesauri in only some inputs, shared words across thesauri, emptied terms and thesauri",
+         "syn_ids_roundtrip shows re-assignment by term string is invertible whatever ids the inputs used; extracted merge_thes decides the complete listing (and all exclusion bitmaps) of every merge output over chains of depth <= 3.",
+         "the enumerator over FST iterators is tied by correspondence only.", "6 C13"),
  "C05": ("Coq: renumbering theorem (Renum.v) + declarative spec_merge; correspondence: merge chains with all bitmap classes vs extracted spec_merge (maps, size, Count, Fields, stored data, DocID, DocNumbers) and the extracted parser's reading of each merged file",
          "C05_renumber proves the numbering loop for all inputs; extracted spec_merge decides every stored-data observation of the re-opened merge output over chains (depth <= 3) of built / opened / merged inputs with nil, empty, random and full deletion bitmaps, empty inputs and zero survivors.",
          "copyStoredDocs / slow-path byte handling are covered by the correspondence only; snappy abstract.", "6 C05"),
